@@ -180,6 +180,7 @@ type family struct {
 	maxFiles int  // total number of files
 	maxTotal int  // total number of entries (points + tombstones); 0 = no cap
 	mem      bool // additionally: every layout whose newest level is a single file, with that level as a memtable
+	onlyMem  bool // only those memtable variants
 }
 
 func materialize(levels []aLevel, memTop bool) LSM {
@@ -220,8 +221,10 @@ func enumerate(f family) []LSM {
 			if ntombs < f.minTombs || npts == 0 {
 				return
 			}
-			out = append(out, materialize(cur, false))
-			if f.mem && len(cur[0].files) == 1 {
+			if !f.onlyMem {
+				out = append(out, materialize(cur, false))
+			}
+			if (f.mem || f.onlyMem) && len(cur[0].files) == 1 {
 				out = append(out, materialize(cur, true))
 			}
 			return
